@@ -12,14 +12,16 @@ Import ListNotations.
    any other character a backslash is not an escape of the engine.  [rest] is the text behind c.
      - hexadecimal: `\x` `\u` `\U` followed by a hexadecimal digit (`\x41`, `\u00e9`, `\U0001F600`)
        or by an opening brace (`\x{41}`, `\u{e9}`, `\U{1F600}`);
-     - a digit: octal escape (back reference: refused by the engine);
+     - an octal digit 0-7: octal escape (or back reference, which the engine refuses by that name); `\8` and `\9`
+       are not in the list: the engine knows no such escape ("unrecognized escape sequence") and to lex they are
+       the characters 8 and 9;
      - the C escapes `\a \f \n \r \t \v`;
      - Unicode classes `\p \P`, Perl classes `\d \D \s \S \w \W`;
      - the assertions `\A \z \B` (`\b`, which lex reads as backspace, is treated apart in [esc_image]). *)
 Definition rx_escape_class (c : N) (rest : text) : bool :=
   (mem c [120; 117; 85]%N                                   (* x u U *)
    && match rest with d :: _ => is_xdigit d || (d =? 123)%N | [] => false end)
-  || is_digit c
+  || is_octal c
   || mem c [97; 102; 110; 114; 116; 118]%N                  (* a f n r t v *)
   || (c =? c_bsl)%N
   || mem c [112; 80]%N                                      (* p P *)
@@ -91,7 +93,7 @@ Definition unescape_iw_spec_stmt : Prop :=
 
 (* the scanner never panics, whatever the text, the flags and the repairs *)
 Definition unescape_total_stmt : Prop :=
-  forall et fixd kw pe re, exists r, unescape_sel et fixd kw re pe = Done r.
+  forall et eo fixd kw pe re, exists r, unescape_sel et eo fixd kw re pe = Done r.
 
 (* the table before the repair lacked `\B` and the braced forms: the escapes of the auditors' rules
    `a\Bb`, `\x{41}`, `\u{e9}`, `\U{1F600}`, `[\x{41}-\x{43}]+` are escapes of the engine, the old table
@@ -120,6 +122,40 @@ Definition lex_esc_refuted_stmt : Prop :=
     lex_from_str repaired esc_witness_src 0 false false false [] = Done (POk st') /\
     map r_re_str (rules st') = [[97; 92; 66; 98]%N] /\
     map r_re_str (rules st') = [map_escapes false false [97; 92; 66; 98]%N].
+
+(* the table the second audit read listed EVERY digit: `\8` and `\9` — escapes of neither side — were kept escaped, and the
+   regex engine then refuses the rule.  The scanner over that table (all other repairs in) leaves `a\9b` and `[\8\9]+` as
+   they are where the declarative image is `a9b`, `[89]+`; next to octal escapes only the non-octal digit differs
+   (`\18` = the escape `\1` followed by 8, `\78` likewise: both tables keep them) *)
+Definition esc_table_digit_refuted_stmt : Prop :=
+  (forall c, mem c [56; 57]%N = true -> forall rest,
+     rx_escape_class c rest = false /\ lex_esc_literal (c :: rest) = false /\ lex_esc_literal_dec (c :: rest) = true) /\
+  (forall c rest, mem c [56; 57]%N = false -> lex_esc_literal_dec (c :: rest) = lex_esc_literal (c :: rest)) /\
+  (forall pe, exists re r, dangling re = false /\ unescape_gen_dec true false re pe = Done r /\
+     r <> map_escapes false pe re /\ unescape_gen true false re pe = Done (map_escapes false pe re) /\
+     re = [97; 92; 57; 98]%N /\ r = [97; 92; 57; 98]%N /\ map_escapes false pe re = [97; 57; 98]%N) /\
+  (forall pe, exists re r, dangling re = false /\ unescape_gen_dec true false re pe = Done r /\
+     r <> map_escapes false pe re /\
+     re = [91; 92; 56; 92; 57; 93; 43]%N /\ r = re /\ map_escapes false pe re = [91; 56; 57; 93; 43]%N) /\
+  (forall pe re, In re [[92; 49; 56]; [92; 55; 56]; [92; 48; 57]]%N ->
+     unescape_gen_dec true false re pe = Done re /\ unescape_gen true false re pe = Done re).
+
+(* the same seen from the entry point: `%%\na\9b 'T'\n` yields the rule T with regex `a\9b` (which Rule::new refuses) before the
+   repair, `a9b` (= what [map_escapes] says) now — under posix_escapes too *)
+Definition digit_witness_src : text := [37; 37; 10; 97; 92; 57; 98; 32; 39; 84; 39; 10]%N.
+Definition lex_esc_digit_refuted_stmt : Prop :=
+  forall pe, exists st st',
+    lex_from_str audited_b digit_witness_src 0 false pe false [] = Done (POk st) /\
+    map r_re_str (rules st) = [[97; 92; 57; 98]%N] /\
+    lex_from_str repaired digit_witness_src 0 false pe false [] = Done (POk st') /\
+    map r_re_str (rules st') = [[97; 57; 98]%N] /\
+    map r_re_str (rules st') = [map_escapes false pe [97; 92; 57; 98]%N].
+
+(* the repaired code, positively: for c = 8, 9, whatever the flags and whatever follows, `\c` stands for c *)
+Definition nonoctal_digit_plain_stmt : Prop :=
+  forall iw pe c, mem c [56; 57]%N = true ->
+    (forall rest, esc_image iw pe c rest = [c]) /\
+    unescape_gen true iw [c_bsl; c] pe = Done [c].
 
 (* the code as first read loses text when the regex ends in a lone backslash after an escape that was rewritten *)
 Definition unescape_dangling_refuted_stmt : Prop :=
@@ -166,7 +202,7 @@ Definition with_iw (b : bool) (fx : fixes) : fixes :=
   {| fix_header := fix_header fx; fix_target_span := fix_target_span fx;
      fix_prefix_unescape := fix_prefix_unescape fx; fix_dangling := fix_dangling fx; fix_iw := b;
      fix_esc_table := fix_esc_table fx; fix_decl_blanks := fix_decl_blanks fx;
-     fix_trim_blank := fix_trim_blank fx |}.
+     fix_trim_blank := fix_trim_blank fx; fix_esc_octal := fix_esc_octal fx |}.
 Definition iw_off_irrelevant_stmt : Prop :=
   forall fx b src pos awc pe re_bad,
     lex_from_str (with_iw b fx) src pos awc pe false re_bad = lex_from_str fx src pos awc pe false re_bad.
@@ -279,7 +315,7 @@ Definition spans_index_source_refuted_stmt : Prop :=
 (* and, independently of any header, not next to a target state *)
 Definition target_span_refuted_stmt : Prop :=
   exists src awc pe iw st,
-    lex_from_str (mk_fixes true false false false false false false false)
+    lex_from_str (mk_fixes true false false false false false false false false)
                  src 0 awc pe iw [] = Done (POk st) /\ ~ names_indexed src st.
 
 (* ---- totality -------------------------------------------------------------------- *)
